@@ -16,7 +16,8 @@ RULE = ("AST-first random well-typed queries with filter selectors (tests on rel
         "comparisons, built-in calls incl. match/search on a fixed clean pattern pool, every nesting of ! && || ( ), filters nested in "
         "embedded queries) rendered with random spelling, applied to documents planted from the query (falsy scalars, empty "
         "containers, missing members); oracle = RFC 9535 filter semantics. Non-trivial: some filter was evaluated on >=2 children "
-        "with both outcomes; distinct by (AST, document). truth_table = (expression kind, child kind, outcome) cells observed by the oracle.")
+        "with both outcomes; distinct by (AST, document). truth_table = (expression kind, child kind, outcome) cells observed by the oracle."
+        " One case in five also re-applies the same compiled query: suspended while it is applied to another document, after the document was updated in place, and after an abandoned evaluation; every application is compared with the model.")
 ASSUMPTIONS = SD_ASSUME = ["reference evaluator vf/oracle/sem.py transcribes RFC 9535 2.3.5 correctly (cross-validated against the repository's IETF tables by ./selfcheck)",
                            "function calls restricted to the five built-ins; patterns for match/search come from a pool on which the I-Regexp oracle is exact"]
 DECIDING_MONITORS = ["M-find"]
